@@ -1,5 +1,251 @@
 import RV.Json
+import RV.Model.Gateway
+import RV.Oracle.C13
+/-!
+Driver for suite `gateway` (property C13).
+
+ops
+* `build` — the pure builder `buildDesiredHTTPRoute` applied once and then again to its
+  own output.  in `{conf, rules, weight, matches}`, impl `{out, again}`.
+* `seq`   — `EnsureRoutes` for a list of steps (each called `rep` times), then `Finalise`
+  (`fin` times) on a fake client.  in `{conf, rules|null, steps, fin}`,
+  impl `{steps:[[call…]…], fin:[call…]}`, call = `{ret, err, rules|null}`.
+-/
 namespace RV.Drv.Gateway
-open Lean RV
-def handle : Handler := fun op _ _ => .error s!"Gateway: op {op} not implemented"
+open Lean RV RV.Gateway RV.Oracle.C13
+
+/-! ### JSON -/
+
+def atomOf (j : Json) : R Atom := do
+  return { ty := ← fOptStr j "t", name := ← fStr j "n", value := ← fStr j "v" }
+
+def pathOf (j : Json) : R PathM := do
+  return { ty := ← fOptStr j "t", value := ← fOptStr j "v" }
+
+def optPath (j : Json) : R (Option PathM) :=
+  match jopt j "path" with
+  | none => .ok none
+  | some p => do return some (← pathOf p)
+
+def matchOf (j : Json) : R Match := do
+  return { path := ← optPath j, headers := ← jlistM atomOf (← jget j "h"),
+           queryParams := ← jlistM atomOf (← jget j "q"), method := ← fOptStr j "method" }
+
+def umatchOf (j : Json) : R UMatch := do
+  return { path := ← optPath j, headers := ← jlistM atomOf (← jget j "h"),
+           queryParams := ← jlistM atomOf (← jget j "q") }
+
+def refOf (j : Json) : R Ref := do
+  return { kind := ← fOptStr j "kind", name := ← fStr j "name", weight := ← fOptInt j "w",
+           rest := ← fStr j "rest" }
+
+def ruleOf (j : Json) : R Rule := do
+  return { mts := ← jlistM matchOf (← jget j "m"), filters := ← fStr j "f",
+           refs := ← jlistM refOf (← jget j "b") }
+
+def confOf (j : Json) : R Conf := do
+  return { stable := ← fStr j "stable", canary := ← fStr j "canary" }
+
+def rulesOf (j : Json) : R (List Rule) := jlistM ruleOf j
+
+def optRulesOf (j : Json) (k : String) : R (Option (List Rule)) :=
+  match jopt j k with
+  | none => .ok none
+  | some v => do return some (← rulesOf v)
+
+def atomJ (a : Atom) : Json := mkObj [("t", optJ strJ a.ty), ("n", strJ a.name), ("v", strJ a.value)]
+def pathJ (p : PathM) : Json := mkObj [("t", optJ strJ p.ty), ("v", optJ strJ p.value)]
+def matchJ (m : Match) : Json :=
+  mkObj [("path", optJ pathJ m.path), ("h", arrJ (m.headers.map atomJ)),
+         ("q", arrJ (m.queryParams.map atomJ)), ("method", optJ strJ m.method)]
+def refJ (r : Ref) : Json :=
+  mkObj [("kind", optJ strJ r.kind), ("name", strJ r.name), ("w", optJ intJ r.weight),
+         ("rest", strJ r.rest)]
+def ruleJ (r : Rule) : Json :=
+  mkObj [("m", arrJ (r.mts.map matchJ)), ("f", strJ r.filters), ("b", arrJ (r.refs.map refJ))]
+def rulesJ (rs : List Rule) : Json := arrJ (rs.map ruleJ)
+
+def outJ : Out → Json
+  | .ok rs => rulesJ rs
+  | .panic => mkObj [("panic", boolJ true)]
+
+/-- builder output as emitted by the harness: an array of rules or `{"panic":true}` -/
+def outOf (j : Json) : R Out :=
+  match j with
+  | .arr _ => do return .ok (← rulesOf j)
+  | _ => .ok .panic
+
+def trafficOf (j : Json) : R (Option Traffic) :=
+  match jopt j "traffic" with
+  | none => .ok none
+  | some t =>
+    match jopt t "p" with
+    | some v => do return some (.pct (← jint v))
+    | none => .ok (some .bad)
+
+def stepOf (j : Json) : R (Step × Nat) := do
+  return ({ traffic := ← trafficOf j, ms := ← jlistM umatchOf (← jget j "matches") },
+          ← fNat j "rep")
+
+def callJ (r : CallRes) : Json :=
+  mkObj [("ret", boolJ r.ret), ("err", strJ r.err), ("rules", optJ rulesJ r.store)]
+
+def callOf (j : Json) : R CallRes := do
+  return { ret := ← fBool j "ret", err := ← fStr j "err", store := ← optRulesOf j "rules" }
+
+/-! ### classification -/
+
+def sizeTag (pre : String) (n : Nat) : String :=
+  pre ++ "=" ++ (if n ≥ 4 then "4+" else toString n)
+
+def kindOf (w : Option Int) (ms : List UMatch) : String :=
+  if w == some (-1) then "finalise" else if !ms.isEmpty then "match" else
+  match w with | none => "nil-weight" | some _ => "weight"
+
+def matchMixTag (ms : List UMatch) : List String :=
+  let p := ms.any (fun u => u.path.isSome)
+  let n := ms.any (fun u => u.path.isNone)
+  if p && n then ["ms:mixed-path-nonpath"] else if p then ["ms:path-only"]
+  else if n then ["ms:nonpath-only"] else []
+
+def routeTags (c : Conf) (rules : List Rule) : List String :=
+  [sizeTag "rules" rules.length] ++
+  (if rules.any (fun r => r.refs.isEmpty) then ["route:backendless-rule"] else []) ++
+  (if rules.any (fun r => hasSvc r.refs c.stable) then ["route:has-stable"] else ["route:no-stable"]) ++
+  (if rules.any (fun r => r.refs.any (fun x => !isSvc x c.stable && !isSvc x c.canary)) then ["route:foreign-backend"] else []) ++
+  (if rules.any (fun r => hasSvc r.refs c.stable && r.mts.isEmpty) then ["route:stable-rule-without-matches"] else []) ++
+  (if rules.any (fun r => r.filters != "") then ["route:filters"] else []) ++
+  (if canaryFree c rules then ["route:canary-free"] else if inv c rules then ["route:reachable-shape"] else ["route:outside-inv"])
+
+/-- the oracle of the clause that governs one builder application `rin → rout` -/
+def clauseHolds (c : Conf) (w : Option Int) (ms : List UMatch) (rin rout : List Rule) :
+    List (String × Bool) :=
+  if w == some (-1) then [("C13.finalise", finaliseOk c rin rout)]
+  else if !ms.isEmpty then [("C13.match", matchOk c ms rin rout)]
+  else match w with
+    | some w => [("C13.weight", weightOk c w rin rout)]
+    | none => []
+
+/-! ### ops -/
+
+def handleBuild (inp impl : Json) : R OpResult := do
+  let c ← confOf (← jget inp "conf")
+  let rules ← rulesOf (← jget inp "rules")
+  let w ← fOptInt inp "weight"
+  let ms ← jlistM umatchOf (← jget inp "matches")
+  let out := buildDesired c rules w ms
+  let again := match out with
+    | .ok rs => outJ (buildDesired c rs w ms)
+    | .panic => Json.null
+  let model := mkObj [("out", outJ out), ("again", again)]
+  -- oracles on the implementation's output
+  let iout ← outOf (← jget impl "out")
+  let hyp := confOk c && inv c rules
+  let mut holds : List (String × Bool) := []
+  let mut tags := ["op:build", "kind:" ++ kindOf w ms] ++ routeTags c rules ++ matchMixTag ms
+  if !confOk c then tags := tags ++ ["conf:stable=canary"]
+  match iout with
+  | .panic => tags := tags ++ ["out:panic"]
+  | .ok rout =>
+    if hyp then
+      holds := holds ++ clauseHolds c w ms rules rout
+      holds := holds ++ [("C13.inv", inv c rout)]
+      match jopt impl "again" with
+      | some a =>
+        match ← outOf a with
+        | .ok r2 => holds := holds ++ [("C13.idem", r2 == rout)]
+        | .panic => holds := holds ++ [("C13.idem", false)]
+      | none => pure ()
+    else
+      tags := tags ++ ["outside-hyp"]
+  if rules.isEmpty then tags := tags ++ ["trivial"]
+  return { model := model, holds := holds, tags := tags }
+
+/-- run one call list of the model and fold the oracles over the implementation's calls -/
+def handleSeq (inp impl : Json) : R OpResult := do
+  let c ← confOf (← jget inp "conf")
+  let orig ← optRulesOf inp "rules"
+  let steps ← jlistM stepOf (← jget inp "steps")
+  let fin ← fNat inp "fin"
+  -- model
+  let mut store := orig
+  let mut mSteps : List Json := []
+  for (s, rep) in steps do
+    let mut calls : List Json := []
+    for _ in List.range rep do
+      let r := ensureRoutes c store s
+      store := r.store
+      calls := calls ++ [callJ r]
+    mSteps := mSteps ++ [arrJ calls]
+  let mut mFin : List Json := []
+  for _ in List.range fin do
+    let r := finalise c store
+    store := r.store
+    mFin := mFin ++ [callJ r]
+  let model := mkObj [("steps", arrJ mSteps), ("fin", arrJ mFin)]
+  -- oracles on the implementation's trace
+  let iSteps ← jlistM (jlistM callOf) (← jget impl "steps")
+  let iFin ← jlistM callOf (← jget impl "fin")
+  let mut tags := ["op:seq", sizeTag "steps" steps.length]
+  let mut holds : List (String × Bool) := []
+  let kinds := steps.map fun (s, _) => kindOf s.weight s.ms
+  for (a, b) in kinds.zip (kinds.drop 1) do
+    tags := tags ++ ["trans:" ++ a ++ ">" ++ b]
+  for (s, _) in steps do
+    tags := tags ++ matchMixTag s.ms
+  match orig with
+  | none => tags := tags ++ ["route:missing"]
+  | some o =>
+    tags := tags ++ routeTags c o
+    let hyp := confOk c && canaryFree c o
+    if !confOk c then tags := tags ++ ["conf:stable=canary"]
+    if !hyp then tags := tags ++ ["outside-hyp"]
+    let mut cur := o
+    let mut panicked := false
+    let mut invOk := true
+    let mut idemOk := true
+    let mut clause : List (String × Bool) := []
+    for ((s, _), calls) in steps.zip iSteps do
+      let mut first := true
+      for call in calls do
+        match call.store with
+        | none => pure ()
+        | some after =>
+          if call.err == "panic" then panicked := true
+          if call.err == "ok" then
+            if first then
+              clause := clause ++ clauseHolds c s.weight s.ms cur after
+            else
+              idemOk := idemOk && call.ret && after == cur
+            invOk := invOk && inv c after
+          cur := after
+        first := false
+    let mut firstFin := true
+    for call in iFin do
+      match call.store with
+      | none => pure ()
+      | some after =>
+        if firstFin then
+          clause := clause ++ [("C13.finalise", finaliseOk c cur after)]
+        else
+          idemOk := idemOk && !call.ret && after == cur
+        cur := after
+      firstFin := false
+    if panicked then tags := tags ++ ["out:panic"]
+    if hyp then
+      -- one entry per clause: conjunction over the trace
+      for name in ["C13.weight", "C13.match", "C13.finalise"] do
+        let vs := clause.filter (fun kv => kv.1 == name)
+        if !vs.isEmpty then holds := holds ++ [(name, vs.all (fun kv => kv.2))]
+      holds := holds ++ [("C13.inv", invOk), ("C13.idem", idemOk)]
+      if fin > 0 then holds := holds ++ [("C13.sequence", restoredOk c o cur)]
+  if steps.isEmpty && fin == 0 then tags := tags ++ ["trivial"]
+  return { model := model, holds := holds, tags := tags }
+
+def handle : Handler := fun op inp impl => do
+  match op with
+  | "build" => handleBuild inp impl
+  | "seq" => handleSeq inp impl
+  | _ => .error s!"gateway: unknown op {op}"
+
 end RV.Drv.Gateway
